@@ -239,13 +239,16 @@ class Sim:
 class Scheduler:
     """
     Runs callables as virtual processes: threads that hold a baton, one at a time; the baton can
-    change hands only at Sim steps.  `schedule` is a list of process indices consulted at each
-    step (one entry per step); when it is exhausted the running process continues and the others
-    follow in index order.
+    change hands only at Sim steps and when a process ends.
+
+    `schedule` is a list of segments [process, n]: that process performs its next n file
+    operations (n = None: runs until it ends), then the next segment starts; a bare integer p
+    means [p, 1].  Segments of finished processes are skipped.  When the list is exhausted the
+    running process continues and the others follow in index order.
     """
 
     def __init__(self, schedule):
-        self.schedule = list(schedule)
+        self.segments = [[x, 1] if isinstance(x, int) else [x[0], x[1]] for x in schedule]
         self.cond = threading.Condition()
         self.current = None
         self.threads = []
@@ -253,30 +256,40 @@ class Scheduler:
         self.results = []
         self.switches = 0
 
-    def _pick(self, me=None):
-        alive = [i for i, d in enumerate(self.done) if not d]
-        if not alive:
-            return None
-        while self.schedule:
-            nxt = self.schedule.pop(0) % len(self.done)
-            if not self.done[nxt]:
-                return nxt
-        if me is not None and not self.done[me]:
+    def _next(self, me, finished):
+        n_procs = len(self.done)
+        while self.segments:
+            proc, n = self.segments[0]
+            proc %= n_procs
+            if self.done[proc] or n == 0:
+                self.segments.pop(0)
+                continue
+            if proc == me and not finished:
+                if n is not None:
+                    self.segments[0][1] = n - 1
+                return me
+            return proc
+        if not finished and not self.done[me]:
             return me
-        return alive[0]
+        alive = [i for i, d in enumerate(self.done) if not d]
+        return alive[0] if alive else None
 
     def yield_point(self):
         me = self._index()
         if me is None:
             return
         with self.cond:
-            nxt = self._pick(me)
+            nxt = self._next(me, False)
             if nxt != me:
                 self.switches += 1
                 self.current = nxt
                 self.cond.notify_all()
                 while self.current != me:
                     self.cond.wait()
+                # resumed: account for the step about to be performed
+                seg = self.segments[0] if self.segments else None
+                if seg is not None and seg[0] % len(self.done) == me and seg[1] is not None and seg[1] > 0:
+                    seg[1] -= 1
 
     def _index(self):
         ident = threading.get_ident()
@@ -303,7 +316,7 @@ class Scheduler:
             finally:
                 with self.cond:
                     self.done[i] = True
-                    self.current = self._pick()
+                    self.current = self._next(i, True)
                     self.cond.notify_all()
 
         self.threads = [threading.Thread(target=wrap, args=(i, fn), daemon=True) for i, fn in enumerate(funcs)]
@@ -312,7 +325,8 @@ class Scheduler:
             if sim is not None:
                 sim.pids[t.ident] = 40000 + i
         with self.cond:
-            self.current = self._pick()
+            first = self.segments[0][0] % n if self.segments else 0
+            self.current = first
             self.cond.notify_all()
         for t in self.threads:
             t.join(timeout)
